@@ -19,6 +19,15 @@
                             fresh: ver|null}…]}   (`CacheTS.Stack.session` from the initial state)
    cache.syspath {threads: [[p…]…], sched, exists: [p…], base: [p…], finish: bool}
                  → {sysPath: [p…], known: [p…] (sorted, deduplicated), done: bool}
+   cache.syspathf same request; the fine-grained system `fStep` (one set operation per step; turns park before
+                 every operation on `_known_dirs` / `_missing_dirs`) → same answer + missing: [p…]
+   cache.scan    {threads: [[sop…]…], sched, seed, fails, keys, finish}   sop = op | "clearPipes" | {"clearPipesOf": k}
+                 (`CacheTS.Scan`: `LoaderCache.clear_pipes` next to look-ups; turn level; cached mode; the reserved key is `keys`)
+                 → the `cache.run` answer + sweeps: [[["swept"|"sizeChanged", [c…]]…]…] (per thread, oldest first)
+   cache.nest    {threads: [[nop…]…], sched, failsO, failsI, keys, finish}
+                 nop = ["getO",ko,ki] | ["getI",ki] | ["clearO"] | ["clearI"] | ["getRe",ko,ko']   (`CacheTS.Nest`; turn level)
+                 → {histO, histI, results, cacheO, cacheI, callsO, callsI, lockO, lockI, done, stuck: [tid…]}
+   cache.nestenum {threads, failsO, failsI, limit} → {count, scheds | null}
 -/
 import Lean.Data.Json
 import PypyrModel.Json
@@ -165,9 +174,173 @@ def handleSession (j : Json) : Except String Json := do
 
 end StackOps
 
+/-! ### `cache.scan`: `LoaderCache.clear_pipes()` next to look-ups (`CacheTS.Scan`) -/
+section ScanOps
+open Pypyr.CacheTS.Scan
+
+def sopOfJson (j : Json) : Except String SOp :=
+  match j with
+  | .str "clearPipes" => pure .clearPipes
+  | _ => match j.getObjVal? "clearPipesOf" with
+    | .ok k => do pure (.clearPipesOf (← jsonNat? k))
+    | .error _ => (opOfJson j).map .base
+
+def sresToJson : SRes → Json
+  | .swept cs => Json.arr #[Json.str "swept", Json.arr (cs.map fun (c : Nat) => (c : Json)).toArray]
+  | .sizeChanged cs => Json.arr #[Json.str "sizeChanged", Json.arr (cs.map fun (c : Nat) => (c : Json)).toArray]
+
+/-- id of the reserved entry whose look-up is the snapshot's critical section -/
+def snapObj : Nat := 999999
+
+def evKey? : Ev → Option Key
+  | .hit _ k _ | .create _ k _ | .fail _ k _ => some k
+  | .clear _ => none
+
+def handleScan (j : Json) : Except String Json := do
+  let cfg0 ← cfgOfJson j
+  if cfg0.noCache then .error "cache.scan: cached mode only"
+  let progs ← (← (← j.getObjVal? "threads").getArr?).toList.mapM fun p => do
+    (← p.getArr?).toList.mapM sopOfJson
+  let sched ← natList (← j.getObjVal? "sched")
+  let nkeys ← jsonNat? (← j.getObjVal? "keys")
+  let fin ← boolField j "finish"
+  let n := progs.length
+  if sched.any (· ≥ n) then .error "schedule names a thread that does not exist"
+  -- the reserved key is the first one the programs do not use
+  let sk := nkeys
+  let cfg : Cfg := { cfg0 with seed := fun k => if k = sk then some snapObj else cfg0.seed k }
+  let x0 := xinit cfg (fun t => (progs[t]?).getD [])
+  let x1 := xrunTurns cfg sk x0 sched
+  let totalOps := (progs.map List.length).sum
+  let x := if fin then xfinish cfg sk n (16 * totalOps + 16) x1 else x1
+  let st := x.base
+  let done := (List.range n).all fun t =>
+    (st.threads t).pc == .idle && (st.threads t).ops.isEmpty && (x.scan t).sops.isEmpty && (x.scan t).spc == .off
+  let cacheJ := (List.range nkeys).filterMap fun k =>
+    (st.cache k).map fun c => Json.arr #[(k : Json), (c : Json)]
+  pure (Json.mkObj [
+    ("hist", Json.arr ((st.hist.reverse.filter fun e => evKey? e != some sk).map evToJson).toArray),
+    ("results", Json.arr ((List.range n).map fun t =>
+        Json.arr (((st.threads t).results.reverse.filter (· != .val snapObj)).map resToJson).toArray).toArray),
+    ("sweeps", Json.arr ((List.range n).map fun t =>
+        Json.arr ((x.scan t).sres.reverse.map sresToJson).toArray).toArray),
+    ("cache", Json.arr cacheJ.toArray),
+    ("calls", (st.calls : Json)),
+    ("done", Json.bool done)])
+
+end ScanOps
+
+/-! ### `cache.nest`: two locks (`CacheTS.Nest`) -/
+section NestOps
+open Pypyr.CacheTS.Nest
+
+def nopOfJson (j : Json) : Except String NOp := do
+  match (← j.getArr?).toList with
+  | [.str "getO", ko, ki] => pure (.getO (← jsonNat? ko) (← jsonNat? ki))
+  | [.str "getI", ki] => pure (.getI (← jsonNat? ki))
+  | [.str "clearO"] => pure .clearO
+  | [.str "clearI"] => pure .clearI
+  | [.str "getRe", ko, ko'] => pure (.getRe (← jsonNat? ko) (← jsonNat? ko'))
+  | _ => .error "bad nest op"
+
+def ncfgOfJson (j : Json) : Except String NCfg := do
+  let fo ← natList (← j.getObjVal? "failsO")
+  let fi ← natList (← j.getObjVal? "failsI")
+  pure { failsO := fun n => fo.contains n, failsI := fun n => fi.contains n }
+
+def nprogsOfJson (j : Json) : Except String (List (List NOp)) := do
+  (← (← j.getObjVal? "threads").getArr?).toList.mapM fun p => do
+    (← p.getArr?).toList.mapM nopOfJson
+
+def nenumScheds (cfg : NCfg) (n : Nat) : Nat → NState → List (List Tid)
+  | 0, _ => [[]]
+  | fuel + 1, st =>
+    let en := (List.range n).filter (nenabled st)
+    if en.isEmpty then [[]]
+    else en.flatMap fun t => (nenumScheds cfg n fuel (nturn cfg st t)).map (t :: ·)
+
+def ncountScheds (cfg : NCfg) (n : Nat) : Nat → NState → Nat
+  | 0, _ => 1
+  | fuel + 1, st =>
+    let en := (List.range n).filter (nenabled st)
+    if en.isEmpty then 1
+    else (en.map fun t => ncountScheds cfg n fuel (nturn cfg st t)).sum
+
+def tabJson (nkeys : Nat) (m : Key → Option Obj) : Json :=
+  Json.arr ((List.range nkeys).filterMap fun k => (m k).map fun c => Json.arr #[(k : Json), (c : Json)]).toArray
+
+def handleNest (j : Json) : Except String Json := do
+  let cfg ← ncfgOfJson j
+  let progs ← nprogsOfJson j
+  let sched ← natList (← j.getObjVal? "sched")
+  let nkeys ← jsonNat? (← j.getObjVal? "keys")
+  let fin ← boolField j "finish"
+  let n := progs.length
+  if sched.any (· ≥ n) then .error "schedule names a thread that does not exist"
+  let st0 := ninit (fun t => (progs[t]?).getD [])
+  let st1 := nrunTurns cfg st0 sched
+  let totalOps := (progs.map List.length).sum
+  let st := if fin then nfinish cfg n (15 * totalOps + 15) st1 else st1
+  let done := (List.range n).all fun t => (st.threads t).pc == .idle && (st.threads t).ops.isEmpty
+  let stuck := (List.range n).filter fun t =>
+    !((st.threads t).pc == .idle && (st.threads t).ops.isEmpty) && !nenabled st t
+  let optT : Option Tid → Json := fun o => match o with | some t => (t : Json) | none => Json.null
+  pure (Json.mkObj [
+    ("histO", Json.arr (st.histO.reverse.map evToJson).toArray),
+    ("histI", Json.arr (st.histI.reverse.map evToJson).toArray),
+    ("results", Json.arr ((List.range n).map fun t =>
+        Json.arr ((st.threads t).results.reverse.map resToJson).toArray).toArray),
+    ("cacheO", tabJson nkeys st.cacheO), ("cacheI", tabJson nkeys st.cacheI),
+    ("callsO", (st.callsO : Json)), ("callsI", (st.callsI : Json)),
+    ("lockO", optT st.lockO), ("lockI", optT st.lockI),
+    ("done", Json.bool done),
+    ("stuck", Json.arr (stuck.map fun (t : Nat) => (t : Json)).toArray)])
+
+def handleNestEnum (j : Json) : Except String Json := do
+  let cfg ← ncfgOfJson j
+  let progs ← nprogsOfJson j
+  let limit ← jsonNat? (← j.getObjVal? "limit")
+  let n := progs.length
+  let st0 := ninit (fun t => (progs[t]?).getD [])
+  let fuel := 15 * (progs.map List.length).sum + 15
+  let cnt := ncountScheds cfg n fuel st0
+  if cnt > limit then
+    pure (Json.mkObj [("count", (cnt : Json)), ("scheds", Json.null)])
+  else
+    let ss := nenumScheds cfg n fuel st0
+    pure (Json.mkObj [("count", (cnt : Json)),
+      ("scheds", Json.arr (ss.map fun s => Json.arr (s.map fun (t : Nat) => (t : Json)).toArray).toArray)])
+
+end NestOps
+
+def handleSysPathF (j : Json) : Except String Json := do
+  let progs ← (← (← j.getObjVal? "threads").getArr?).toList.mapM natList
+  let sched ← natList (← j.getObjVal? "sched")
+  let exs ← natList (← j.getObjVal? "exists")
+  let base ← natList (← j.getObjVal? "base")
+  let fin ← boolField j "finish"
+  let n := progs.length
+  if sched.any (· ≥ n) then .error "schedule names a thread that does not exist"
+  let ex := fun p => exs.contains p
+  let st0 := fInit base (fun t => (progs[t]?).getD [])
+  let st1 := fRunTurns ex st0 sched
+  let totalOps := (progs.map List.length).sum
+  let st := if fin then fFinish ex n (12 * totalOps + 12) st1 else st1
+  let done := (List.range n).all fun t => (st.threads t).pc == .fIdle && (st.threads t).ops.isEmpty
+  let sortd := fun (l : List Nat) => (l.eraseDups.toArray.qsort (· < ·)).toList
+  pure (Json.mkObj [
+    ("sysPath", Json.arr (st.sysPath.map fun (p : Nat) => (p : Json)).toArray),
+    ("known", Json.arr ((sortd st.known).map fun (p : Nat) => (p : Json)).toArray),
+    ("missing", Json.arr ((sortd st.missing).map fun (p : Nat) => (p : Json)).toArray),
+    ("done", Json.bool done)])
+
 def handle (op : String) (j : Json) : Except String Json := do
   match op with
   | "session" => handleSession j
+  | "scan" => handleScan j
+  | "nest" => handleNest j
+  | "nestenum" => handleNestEnum j
+  | "syspathf" => handleSysPathF j
   | "enum" =>
     let cfg ← cfgOfJson j
     let progs ← progsOfJson j
